@@ -30,12 +30,34 @@ RENDER_CALLS = {"rebuild", "_rebuild_operand", "format_trivia", "format_intersti
                 "_escape_nix_string", "_escape_indented_string", "rebuild_scoped"}
 
 
+BOOLEAN_CALLS = {"isinstance", "len", "bool", "any", "all", "startswith", "endswith", "isspace", "count", "find", "index"}
+
+
 def render_names(f) -> set[str]:
     """locals that hold rendered text: assigned from a rendering call, or built from such locals"""
     names: set[str] = set()
 
+    def text_parts(e):
+        """sub-expressions whose value can flow into the value of `e`: a comparison, a negation, a predicate call yield a
+        boolean whatever text they inspect (`"\\n" in preview` is not rendered text)"""
+        stack = [e]
+        while stack:
+            n = stack.pop()
+            if isinstance(n, ast.Compare) or (isinstance(n, ast.UnaryOp) and isinstance(n.op, ast.Not)):
+                continue
+            if isinstance(n, ast.Call):
+                c = n.func.attr if isinstance(n.func, ast.Attribute) else getattr(n.func, "id", None)
+                if c in BOOLEAN_CALLS:
+                    continue
+            if isinstance(n, ast.IfExp):
+                yield n
+                stack += [n.body, n.orelse]  # the test selects, it does not flow
+                continue
+            yield n
+            stack.extend(ast.iter_child_nodes(n))
+
     def is_render_expr(e) -> bool:
-        for n in ast.walk(e):
+        for n in text_parts(e):
             if isinstance(n, ast.Call):
                 c = n.func.attr if isinstance(n.func, ast.Attribute) else getattr(n.func, "id", None)
                 if c in RENDER_CALLS or (c or "").startswith(("render_", "_render_", "_format_")):
